@@ -383,7 +383,7 @@ impl Prop for C18 {
         if stage == 1 {
             let ws = super::c13::extra_workloads();
             for i in a..b {
-                out.idx = Some(i);
+                out.at(i);
                 super::c13::check_workload(&ws[i as usize], tier.pick(2, 3), Duration::from_secs(tier.pick(60, 600)), out);
             }
             return;
@@ -391,7 +391,7 @@ impl Prop for C18 {
         if stage == 3 {
             let cases = style_cases();
             for i in a..b {
-                out.idx = Some(i);
+                out.at(i);
                 let (style, cfg) = cases[i as usize];
                 STYLE.store(style, std::sync::atomic::Ordering::SeqCst);
                 check_config(cfg, &progs, if style == 1 { "styles[empty]" } else { "styles[separators]" }, true, out);
@@ -405,7 +405,7 @@ impl Prop for C18 {
         let stage = if stage == 4 { 2 } else if stage >= 2 { stage - 1 } else { stage };
         if stage == 1 {
             for i in a..b {
-                out.idx = Some(i);
+                out.at(i);
                 // first a decoy descriptor for this (kind, name), then the marker set
                 install_decoy(i as usize);
                 let cfg = 1u32 << i;
@@ -421,7 +421,7 @@ impl Prop for C18 {
         if stage == 0 {
             let cfgs = configs(tier);
             for i in a..b {
-            out.idx = Some(i);
+            out.at(i);
                 let cfg = cfgs[i as usize];
                 check_config(cfg, &progs, "subsets", true, out);
                 out.nontrivial.insert(cfg as u64);
@@ -433,7 +433,7 @@ impl Prop for C18 {
             }
         } else {
             for i in a..b {
-            out.idx = Some(i);
+            out.at(i);
                 let n = REGS.len() as u64;
                 let cfg: u32 = if i == 0 { 0 } else if i == n + 1 { (1u32 << n) - 1 } else { 1u32 << (i - 1) };
                 check_config(cfg, &progs, "fresh", false, out);
